@@ -151,6 +151,7 @@ def gen_fault(w, rng, cfg):
         if k == "wipe":
             return {"op": "scribble", "in": [s.id], "wipe": True}
         if rng.chance(0.35):
+            w._pending_malformed = s.id  # load the nearly-valid document right away
             return {"op": "scribble", "in": [s.id], "dropkey": rng.randint(0, 10 ** 6), "edits": []}
         edits = [[rng.randint(0, 500), rng.choice(["set", "del", "replace", "other"]), rng.randint(0, 50)] for _ in range(rng.randint(1, 4))]
         return {"op": "scribble", "in": [s.id], "edits": edits}
@@ -212,6 +213,13 @@ def gen_fault(w, rng, cfg):
 
 
 def gen_step(w, rng, cfg, tree, tier):
+    pm = getattr(w, "_pending_malformed", None)
+    if pm is not None:
+        w._pending_malformed = None
+        if pm in w.slots and w.slots[pm].kind == "doc":
+            w.count("fault_malformed_document_loaded")
+            w.faults_fired += 1
+            return {"op": "from_json_data", "in": [pm], "malformed": True}
     pend = getattr(w, "_pending_edit", None)
     if pend is not None:
         # the freshly edited data is encoded twice in a row (P2 needs the same call on the same argument)
